@@ -85,12 +85,12 @@ theorem parseIpv4_render (a b c d : Nat) (ha : a < 256) (hb : b < 256) (hc : c <
 def strLineAfter (line : Nat) (b : UInt8) (f : OctetForm) : Nat :=
   if b = 10 ∧ f ≠ .dec then line + 1 else line
 
-theorem quotedLoop_octet (tl ek : Kind) (sl : Nat) (b : UInt8) (f : OctetForm)
+theorem quotedLoop_octet (max : Nat) (tl ek : Kind) (sl : Nat) (b : UInt8) (f : OctetForm)
     (hf : stringFormOK true b f = true) (rest : List UInt8) (line : Nat) (acc : List UInt8) (n : Nat)
-    (hn : n < 255) :
-    quotedLoop 255 tl ek sl (renderOctet b f ++ rest) line acc n =
-      quotedLoop 255 tl ek sl rest (strLineAfter line b f) (b :: acc) (n + 1) := by
-  have hn' : ¬ n ≥ 255 := by omega
+    (hn : n < max) :
+    quotedLoop max tl ek sl (renderOctet b f ++ rest) line acc n =
+      quotedLoop max tl ek sl rest (strLineAfter line b f) (b :: acc) (n + 1) := by
+  have hn' : ¬ n ≥ max := by omega
   cases f with
   | raw =>
     simp only [stringFormOK, ↓reduceIte, Bool.and_eq_true, bne_iff_ne, ne_eq] at hf
@@ -114,12 +114,12 @@ theorem quotedLoop_octet (tl ek : Kind) (sl : Nat) (b : UInt8) (f : OctetForm)
     rw [parseEscapeL_dec b rest line]
     simp [hn', strLineAfter]
 
-theorem unquotedLoop_octet (tl : Kind) (sl : Nat) (b : UInt8) (f : OctetForm)
+theorem unquotedLoop_octet (max : Nat) (tl : Kind) (sl : Nat) (b : UInt8) (f : OctetForm)
     (hf : stringFormOK false b f = true) (rest : List UInt8) (line : Nat) (acc : List UInt8) (n : Nat)
-    (hn : n < 255) :
-    unquotedLoop 255 tl sl (renderOctet b f ++ rest) line acc n =
-      unquotedLoop 255 tl sl rest (strLineAfter line b f) (b :: acc) (n + 1) := by
-  have hn' : ¬ n ≥ 255 := by omega
+    (hn : n < max) :
+    unquotedLoop max tl sl (renderOctet b f ++ rest) line acc n =
+      unquotedLoop max tl sl rest (strLineAfter line b f) (b :: acc) (n + 1) := by
+  have hn' : ¬ n ≥ max := by omega
   cases f with
   | raw =>
     simp only [stringFormOK, Bool.false_eq_true, ↓reduceIte, Bool.and_eq_true, Bool.not_eq_true', bne_iff_ne,
@@ -161,10 +161,10 @@ theorem octetsLines_cons (x : UInt8 × OctetForm) (os : List (UInt8 × OctetForm
     omega
   · simp [h, List.filter_cons]
 
-theorem quotedLoop_render (tl ek : Kind) (sl : Nat) (os : List (UInt8 × OctetForm))
+theorem quotedLoop_render (max : Nat) (tl ek : Kind) (sl : Nat) (os : List (UInt8 × OctetForm))
     (hforms : ∀ x ∈ os, stringFormOK true x.1 x.2 = true) (rest : List UInt8) (line : Nat)
-    (acc : List UInt8) (n : Nat) (hn : n + os.length ≤ 255) :
-    quotedLoop 255 tl ek sl (octetsText os ++ 34 :: rest) line acc n =
+    (acc : List UInt8) (n : Nat) (hn : n + os.length ≤ max) :
+    quotedLoop max tl ek sl (octetsText os ++ 34 :: rest) line acc n =
       .ok (acc.reverse ++ os.map (·.1), rest, line + octetsLines os) := by
   induction os generalizing line acc n with
   | nil =>
@@ -173,14 +173,14 @@ theorem quotedLoop_render (tl ek : Kind) (sl : Nat) (os : List (UInt8 × OctetFo
   | cons x os ih =>
     have e : octetsText (x :: os) ++ 34 :: rest = renderOctet x.1 x.2 ++ (octetsText os ++ 34 :: rest) := by
       simp [octetsText]
-    rw [e, quotedLoop_octet tl ek sl x.1 x.2 (hforms x (by simp)) _ line acc n (by simp at hn; omega),
+    rw [e, quotedLoop_octet max tl ek sl x.1 x.2 (hforms x (by simp)) _ line acc n (by simp at hn; omega),
       ih (fun y hy => hforms y (by simp [hy])) _ _ _ (by simp at hn; omega), octetsLines_cons]
     simp
 
-theorem unquotedLoop_render (tl : Kind) (sl : Nat) (os : List (UInt8 × OctetForm))
+theorem unquotedLoop_render (max : Nat) (tl : Kind) (sl : Nat) (os : List (UInt8 × OctetForm))
     (hforms : ∀ x ∈ os, stringFormOK false x.1 x.2 = true) (rest : List UInt8)
-    (hrest : atFieldEnd rest = true) (line : Nat) (acc : List UInt8) (n : Nat) (hn : n + os.length ≤ 255) :
-    unquotedLoop 255 tl sl (octetsText os ++ rest) line acc n =
+    (hrest : atFieldEnd rest = true) (line : Nat) (acc : List UInt8) (n : Nat) (hn : n + os.length ≤ max) :
+    unquotedLoop max tl sl (octetsText os ++ rest) line acc n =
       .ok (acc.reverse ++ os.map (·.1), rest, line + octetsLines os) := by
   induction os generalizing line acc n with
   | nil =>
@@ -189,7 +189,7 @@ theorem unquotedLoop_render (tl : Kind) (sl : Nat) (os : List (UInt8 × OctetFor
   | cons x os ih =>
     have e : octetsText (x :: os) ++ rest = renderOctet x.1 x.2 ++ (octetsText os ++ rest) := by
       simp [octetsText]
-    rw [e, unquotedLoop_octet tl sl x.1 x.2 (hforms x (by simp)) _ line acc n (by simp at hn; omega),
+    rw [e, unquotedLoop_octet max tl sl x.1 x.2 (hforms x (by simp)) _ line acc n (by simp at hn; omega),
       ih (fun y hy => hforms y (by simp [hy])) _ _ _ (by simp at hn; omega), octetsLines_cons]
     simp
 
@@ -216,32 +216,36 @@ theorem octetsText_head {os : List (UInt8 × OctetForm)} (hne : os ≠ [])
     | esc => exact ⟨92, b :: octetsText os, by simp [octetsText, renderOctet], .inl rfl, by decide⟩
     | dec => exact ⟨92, _, by simp [octetsText, renderOctet]; rfl, .inl rfl, by decide⟩
 
-theorem stringText_starts (s : PString) (hwf : WFString s) : Starts (stringText s) := by
+theorem stringText_starts_of (s : PString) (hforms : ∀ x ∈ s.octets, stringFormOK s.quoted x.1 x.2 = true)
+    (hne : s.quoted = false → s.octets ≠ []) : Starts (stringText s) := by
   unfold stringText
   cases hq : s.quoted with
   | true => exact ⟨34, _, by simp only [↓reduceIte]; rfl, .inr (by decide)⟩
   | false =>
-    obtain ⟨c, t, hct, hc, _⟩ := octetsText_head (hwf.ne hq) (by have := hwf.forms; rwa [hq] at this)
+    obtain ⟨c, t, hct, hc, _⟩ := octetsText_head (hne hq) (by rwa [hq] at hforms)
     exact ⟨c, t, by simpa [octetsText] using hct, hc⟩
 
-/-- **Character-strings**, quoted or not, in any mix of raw / `\X` / `\DDD` octets -/
-theorem parseCharacterString_render (s : PString) (hwf : WFString s) (rest : List UInt8)
+theorem stringText_starts (s : PString) (hwf : WFString s) : Starts (stringText s) :=
+  stringText_starts_of s hwf.forms hwf.ne
+
+/-- a string field with the length limit `max` -/
+theorem parseString_render (max : Nat) (tl ek : Kind) (s : PString)
+    (hforms : ∀ x ∈ s.octets, stringFormOK s.quoted x.1 x.2 = true) (hlen : s.octets.length ≤ max)
+    (hne : s.quoted = false → s.octets ≠ []) (rest : List UInt8)
     (hrest : atFieldEnd rest = true) (line : Nat) (paren : Bool) :
-    parseCharacterString ⟨stringText s ++ rest, line, paren⟩ =
+    parseString max tl ek ⟨stringText s ++ rest, line, paren⟩ =
       .ok (stringOctets s, ⟨rest, line + stringLines s, paren⟩) := by
-  obtain ⟨hforms, hlen, hne⟩ := hwf
-  unfold parseCharacterString parseString stringText
+  unfold parseString stringText
   cases hq : s.quoted with
   | true =>
     rw [hq] at hforms
-    have := quotedLoop_render .CharacterStringTooLong .EofInQuotedCharacterString line s.octets hforms rest line [] 0
-      (by omega)
+    have := quotedLoop_render max tl ek line s.octets hforms rest line [] 0 (by omega)
     simp only [octetsText] at this
     simp [this, stringOctets, stringLines, octetsLines]
   | false =>
     rw [hq] at hforms
     obtain ⟨c, t, hct, _, h34⟩ := octetsText_head (hne hq) hforms
-    have := unquotedLoop_render .CharacterStringTooLong line s.octets hforms rest hrest line [] 0 (by omega)
+    have := unquotedLoop_render max tl line s.octets hforms rest hrest line [] 0 (by omega)
     simp only [Bool.false_eq_true, ↓reduceIte]
     have hct' : (s.octets.flatMap fun x => renderOctet x.1 x.2) = c :: t := hct
     rw [hct'] at *
@@ -250,5 +254,12 @@ theorem parseCharacterString_render (s : PString) (hwf : WFString s) (rest : Lis
     split
     · next heq => simp at heq; exact absurd heq.1 h34
     · simp [this, stringOctets, stringLines, octetsLines]
+
+/-- **Character-strings**, quoted or not, in any mix of raw / `\X` / `\DDD` octets -/
+theorem parseCharacterString_render (s : PString) (hwf : WFString s) (rest : List UInt8)
+    (hrest : atFieldEnd rest = true) (line : Nat) (paren : Bool) :
+    parseCharacterString ⟨stringText s ++ rest, line, paren⟩ =
+      .ok (stringOctets s, ⟨rest, line + stringLines s, paren⟩) :=
+  parseString_render 255 _ _ s hwf.forms hwf.len hwf.ne rest hrest line paren
 
 end QV.ZF
